@@ -1,2 +1,6 @@
 import SyslModel.Path.Model
 import SyslModel.Path.Props
+import SyslModel.Expect.C18
+import SyslModel.Closure.Model
+import SyslModel.Closure.Props
+import SyslModel.Closure.Flatten
